@@ -404,6 +404,40 @@ def run(chk: Check) -> None:
                              {"key": k, "value": v, "header": hdr})
         chk.case(("attr", k, v, dom, exp, ma, sec, ho, path, ss, part), nontrivial=True)
 
+    # Response.set_cookie / delete_cookie (glue in sansio/response.py): the Set-Cookie header is what dump_cookie gives for the
+    # same arguments (every keyword forwarded to the right parameter), and delete_cookie asks for the epoch Expires and
+    # Max-Age=0 next to exactly the attributes passed on
+    for (k, v, dom, exp, ma, sec, ho, path, ss, part) in attr_cases[: 400 if quick else 5000]:
+        kw = dict(max_age=ma, expires=exp, path=path, domain=dom, secure=sec, httponly=ho, samesite=ss, partitioned=part)
+        try:
+            r = Response()
+            r.set_cookie(k, v, **kw)
+            got = r.headers.getlist("Set-Cookie")
+            want = [whttp.dump_cookie(k, v, max_size=r.max_cookie_size, **kw)]
+        except Exception as e:  # noqa: BLE001
+            got, want = "exn:" + type(e).__name__, None
+            try:
+                whttp.dump_cookie(k, v, **kw)
+            except Exception as e2:  # noqa: BLE001
+                want = "exn:" + type(e2).__name__
+        if got != want:
+            chk.fail("set-cookie-glue", f"Response.set_cookie header {got!r} != dump_cookie {want!r}", {"key": k, "value": v, "kw": repr(kw)})
+        try:
+            r = Response()
+            r.delete_cookie(k, path=path, domain=dom, secure=sec, httponly=ho, samesite=ss, partitioned=part)
+            pieces = r.headers["Set-Cookie"].split("; ")
+            rdom = dom.partition(":")[0].lstrip(".").encode("idna").decode("ascii") if dom else None
+            want = ([f"Domain={rdom}"] if rdom else []) + ["Expires=Thu, 01 Jan 1970 00:00:00 GMT", "Max-Age=0"] \
+                + (["Secure"] if sec or part else []) + (["HttpOnly"] if ho else []) \
+                + ([f"Path={quote(path, safe=chr(37) + '!$&()*+,/:=@' + chr(39))}"] if path is not None else []) \
+                + ([f"SameSite={ss.title()}"] if ss is not None else []) + (["Partitioned"] if part else [])
+            okd = pieces[1:] == want and pieces[0] in (f"{k}=", f'{k}=""')
+        except Exception as e:  # noqa: BLE001
+            okd, pieces = False, "exn:" + type(e).__name__
+        if not okd:
+            chk.fail("delete-cookie-glue", f"delete_cookie header {pieces!r}", {"key": k, "kw": repr(kw)})
+        chk.case(("glue", k, v, dom, exp, ma, sec, ho, path, ss, part), True)
+
     # test client's jar (glue): set-cookie through a response, send back, read request.cookies
     n_jar = 300 if quick else 4000
     jar_fail = 0
